@@ -415,6 +415,12 @@ func (r *TaskRunner) execute(ctx context.Context, t *task.Task, job *executor.Jo
 					r.notifyTaskChange(t)
 					continue
 				}
+			} else if t.AllowFailure && ctx.Err() == nil {
+				// A command that could not be run at all (e.g. a script line the shell cannot parse) is a failure like a
+				// non-zero exit status: allow_failure tolerates it. Otherwise the task counted as errored, which canceled
+				// the job (fail-fast) and kept its dependents from ever running although the job ended "not canceled".
+				r.notifyTaskChange(t)
+				continue
 			}
 			t.Errored = true
 			t.Error = err
